@@ -306,6 +306,10 @@ fn cmd_native(args: &[String]) -> i32 {
     let dump = arg(args, "--dump-digests").map(|s| s.to_string());
     let digests_bin = arg(args, "--trace-digests-bin").map(|s| s.to_string());
     let min_budget = arg_u64(args, "--min-budget", 3000);
+    let progress = arg(args, "--progress").map(|p| {
+        std::fs::OpenOptions::new().create(true).write(true).truncate(true).open(p).expect("progress file")
+    });
+    let progress = Arc::new(Mutex::new(progress));
     silence_panics();
     let hooks = sched::install_repo_hook();
     let start = Instant::now();
@@ -319,6 +323,7 @@ fn cmd_native(args: &[String]) -> i32 {
         let dump_rows = dump_rows.clone();
         let want_dump = dump.is_some();
         let replay_dir = replay_dir.clone();
+        let progress = progress.clone();
         joins.push(
             std::thread::Builder::new()
                 .stack_size(run::STACK)
@@ -333,6 +338,12 @@ fn cmd_native(args: &[String]) -> i32 {
                         let idx = next.fetch_add(1, Ordering::Relaxed);
                         if idx >= first + count {
                             break;
+                        }
+                        if let Some(f) = progress.lock().unwrap().as_mut() {
+                            // which run is in flight (read by the driver if this process dies of a signal)
+                            use std::io::{Seek, SeekFrom};
+                            let _ = f.seek(SeekFrom::Start(0));
+                            let _ = f.write_all(format!("{idx:<20}").as_bytes());
                         }
                         let plan = plan_run(seed, idx);
                         let out = execute(
@@ -526,11 +537,13 @@ fn cmd_refdigest(args: &[String]) -> i32 {
     let first = arg_u64(args, "--first", 0);
     let count = arg_u64(args, "--count", 200);
     let reverse = arg_u64(args, "--reverse", 0) != 0;
+    let warm = arg_u64(args, "--warm", 0);
     silence_panics();
     sched::install_repo_hook();
     let h = std::thread::Builder::new()
         .stack_size(run::STACK)
         .spawn(move || {
+            warm_up(warm);
             let mut rows = Vec::new();
             let mut order: Vec<u64> = (first..first + count).collect();
             if reverse {
@@ -548,6 +561,38 @@ fn cmd_refdigest(args: &[String]) -> i32 {
     let rows = h.join().unwrap();
     println!("{}", serde_json::to_string(&rows).unwrap());
     0
+}
+
+/// Gives the process a history before the measured work starts: one parse + eval per kind,
+/// in forward (1) or backward (2) order of the kinds, or nothing (0). Observations must not
+/// depend on it; the driver compares reference digests of processes warmed up differently.
+fn warm_up(order: u64) {
+    use kinds::{make_handle, Form, Kind, ALL_KINDS};
+    if order == 0 {
+        return;
+    }
+    let mut ks: Vec<Kind> = ALL_KINDS.to_vec();
+    if order == 2 {
+        ks.reverse();
+    }
+    for k in ks {
+        let text = match k {
+            Kind::F64 | Kind::F32 => "sin(x)+1*2-log2y",
+            Kind::F64b => "dbl(x)<=2**3*pad05(y)",
+            Kind::Val => "1 if x>0 else [1,2]",
+            Kind::Bool => "!p&&true",
+            Kind::Sim | Kind::Sim2 => "sq(x)**2<=3*TEN",
+            Kind::Sim3 => "tw(x)&&1<<2",
+        };
+        for form in [Form::Flat, Form::Deep] {
+            let _ = std::panic::catch_unwind(|| {
+                if let Ok(h) = make_handle(k, form, text, true) {
+                    let _ = h.eval(1, 0, 0);
+                    let _ = h.inspect();
+                }
+            });
+        }
+    }
 }
 
 fn cmd_show(args: &[String]) -> i32 {
